@@ -74,6 +74,8 @@ def main():
         run.obligation('command table contains %s' % want, 'unsat' if all(w in table for w in want) else 'sat', 'unsat', 0.0, found=sorted(k for k in table if k))
         findings = []
 
+        execs = {}
+
         def analyse(cmd):
             f = table.get(cmd)
             if not isinstance(f, Func):
@@ -81,6 +83,7 @@ def main():
                 return []
             exc = Exec(prog, sm, loop_bound=40, max_paths=20000)
             exc.skip_init = True
+            execs[cmd] = exc
             t = time.time()
             try:
                 rs = exc.run(f.name, args=[Opaque('clictx', flag_defaults=flagdefs.get(cmd, {}))])
@@ -148,6 +151,20 @@ def main():
               lambda r: not is_nil_err(r.ret) or (len(api(r, 'VerifyInsertion') + api(r, 'VerifyDeletion')) == 1 and all(e[2] == 'ok' for e in api(r, 'VerifyInsertion') + api(r, 'VerifyDeletion')) and
                                                   ((api(r, 'VerifyInsertion') and not exc_feasible(r, r.state.draws['flag:mode'] != z3.StringVal('insertion'))) or
                                                    (api(r, 'VerifyDeletion') and not exc_feasible(r, r.state.draws['flag:mode'] != z3.StringVal('deletion'))))))
+        def hash_is_flag(r):
+            # the input hash handed to the verifier is the number --input-hash denotes (Go literal syntax, base prefix selected)
+            fl = r.state.draws.get('flag:input-hash')
+            for e in api(r, 'VerifyInsertion') + api(r, 'VerifyDeletion'):
+                h = e[3][1] if len(e) > 3 and len(e[3]) > 1 else None
+                hv = getattr(h, 'v', None)
+                if fl is None or hv is None or not z3.is_expr(hv):
+                    return False
+                nv = stubs.uf(execs['verify'], 'numval_base0', z3.StringSort(), z3.BitVecSort(stubs.BIG))
+                isn = stubs.uf(execs['verify'], 'isNumber_base0', z3.StringSort(), z3.BoolSort())
+                if exc_feasible(r, z3.Or(hv != nv(fl), z3.Not(isn(fl)))):
+                    return False
+            return True
+        check('verify', 'the hash given to the verifier is the number the --input-hash flag denotes (any Go number syntax), and only numbers are accepted', hash_is_flag)
         check('verify', 'a verifier rejection is returned as an error', lambda r: not any(e[2] == 'err' for e in api(r, 'VerifyInsertion') + api(r, 'VerifyDeletion')) or not is_nil_err(r.ret))
         check('start', 'success only after the server was run, stopped and awaited', lambda r: not is_nil_err(r.ret) or (api(r, 'server.Run') and api(r, 'RequestStop') and api(r, 'AwaitStop')))
         for cmd in ('setup', 'import-setup', 'convert-to-raw'):
@@ -209,6 +226,13 @@ def native_cli(run):
         expect('%s prove exits 0 with exactly one JSON line on stdout' % mode, rc == 0 and len(proof.strip().splitlines()) == 1 and proof.strip().startswith('{'))
         rc, so, se = sh(['verify', '--mode', mode, '--keys-file', keys, '--input-hash', h], stdin=proof)
         expect('%s verify exits 0 for the right hash' % mode, rc == 0)
+        hv = int(h, 16)
+        for form in (str(hv), '0X' + ('%X' % hv), '0x0' + ('%x' % hv), '0b' + bin(hv)[2:], '0o' + oct(hv)[2:]):
+            rc, so, se = sh(['verify', '--mode', mode, '--keys-file', keys, '--input-hash', form], stdin=proof)
+            expect('%s verify exits 0 for the right hash written as %s...' % (mode, form[:6]), rc == 0)
+        for form in ('', 'zz', h + 'g', '0x'):
+            rc, so, se = sh(['verify', '--mode', mode, '--keys-file', keys, '--input-hash', form], stdin=proof)
+            expect('%s verify exits non-zero for the non-number %r' % (mode, form[-6:]), rc != 0)
         rc, so, se = sh(['verify', '--mode', mode, '--keys-file', keys, '--input-hash', hex(int(h, 16) + 1)], stdin=proof)
         expect('%s verify exits non-zero for hash+1' % mode, rc != 0)
         rc, so, se = sh(['gen-test-params', '--tree-depth', '2', '--batch-size', '1'])
